@@ -18,17 +18,17 @@ class Boom(Exception):
     pass
 
 
-def gen_cases(chk, nobj):
+def gen_cases(chk, nobj, maxtuple=2):
     mod, cfg = inst.instance(
         "I_Visitor", "Gen_Visitor",
-        dict(MaxObjs=nobj, MaxTuple=2, GenClasses={"SubLeaf", "Unary", "Many", "Opt"}, Origins={0},
+        dict(MaxObjs=nobj, MaxTuple=maxtuple, GenClasses={"SubLeaf", "Unary", "Many", "Opt"}, Origins={0},
              PropAtoms="@op:PA", RuleClasses={"Leaf", "Unary", "Many"}, RuleKinds=set(KINDS)),
         ops=[inst.prop_atoms_def("PA", {}, {0})],
         invariants=["EmitInv", "EmitDispatch", "NoChangeSame", "KeepOnlyIsIdentity", "StrictNarrower"])
     (chk.wd / "I_Visitor.tla").write_text(mod)
     r = tlc.run(chk.wd, "I_Visitor", cfg, workers=core.NPROC, timeout=3000)
     tlc.require_clean(r, "Gen_Visitor")
-    chk.note_tlc(f"Gen_Visitor/objs={nobj}", r, "mc+gen")
+    chk.note_tlc(f"Gen_Visitor/objs={nobj}/tuple={maxtuple}", r, "mc+gen")
     if r.violated:
         chk.tlc_violation("Gen_Visitor", r)
     return r.json_raw
@@ -284,8 +284,9 @@ def run(chk: core.Check):
                 "fields, propagation of the rule's exception, input fingerprints and registration unchanged; dispatch "
                 "for every class x method subset x strictness. Non-trivial: results that contain a new node. Trace: "
                 "random trees with random rule sets over ten classes, validated by Trace_Visitor.tla.")
-    raw = gen_cases(chk, 4 if quick else 5)
-    chk.bounds["heaps"] = {"MaxObjs": 4 if quick else 5}
+    # (5 objects do not fit: TLC runs out of memory evaluating the rule tables; the thorough tier widens tuples instead)
+    raw = gen_cases(chk, 4, 2 if quick else 3)
+    chk.bounds["heaps"] = {"MaxObjs": 4, "MaxTuple": 2 if quick else 3}
     if raw:
         c = tlc.decode(raw[len(raw) // 2])
         if c["m"] == "visitor":
